@@ -31,6 +31,9 @@ _TRANSPARENT = tuple(p + w for p in ('', 'std::mem::', 'core::mem::', 'std::ptr:
                      for w in ('ManuallyDrop<', 'MaybeDangling<', 'Unique<', 'NonNull<'))
 
 
+_LAZY_DEREF = re.compile(r'<[A-Z][A-Z_0-9]* as Deref>::deref')
+
+
 def rust_unescape(body):
     out = []
     i = 0
@@ -814,6 +817,8 @@ class Interp:
 
     # ------------------------------------------------------------------ calls
     def call(self, name, args, fn):
+        if name.startswith('<') and _LAZY_DEREF.fullmatch(name):
+            return models.dispatch(self, name, args, fn)
         f = self.p.resolve(name)
         if f is not None:
             return self.run(f, args)
